@@ -68,7 +68,7 @@ TRI = (None, True, False)
 INDEXED_SPREAD = (0, 1, 7, 8, 9, 15, 16, 17, 21, 46, 51, 88, 124, 160, 196, 202, 226, 231, 232, 233, 243,
                   244, 254, 255)
 LATTICE = (0, 64, 128, 191, 255)
-LINKS = (None, None, "https://example.org/a?b=1&c=2", None, "http://x")
+LINKS = (None, None, "https://example.org/a?b=1&c=2", None, "http://x", None, "https://h.example/map;lat=50;lon=4/v?ids=1;2")
 
 
 def colour_specs(rng, n_random, lattice=LATTICE, indexed=INDEXED_SPREAD):
